@@ -147,12 +147,34 @@ func isOctosqlFrame(fn string) bool {
 // line number, so that keys survive unrelated edits.
 func (f frame) site() string {
 	file := f.File
+	fn := strings.TrimPrefix(f.Fn, "created by ")
+	if isOctosqlFrame(fn) {
+		// derive the directory from the package path, so that the key is the same wherever the
+		// source tree is checked out
+		rest := strings.TrimPrefix(fn, octoPrefix)
+		pkg := rest
+		if cut := strings.IndexAny(pkg, "(["); cut >= 0 {
+			pkg = pkg[:cut]
+		}
+		slash := strings.LastIndex(pkg, "/")
+		if dot := strings.Index(pkg[slash+1:], "."); dot >= 0 {
+			pkg = pkg[:slash+1+dot]
+		}
+		base := file
+		if j := strings.LastIndex(base, "/"); j >= 0 {
+			base = base[j+1:]
+		}
+		return pkg + "/" + base + ":" + rest
+	}
 	if j := strings.Index(file, "/repo/"); j >= 0 {
 		file = file[j+len("/repo/"):]
 	} else if j := strings.Index(file, "/pkg/mod/"); j >= 0 {
 		file = file[j+len("/pkg/mod/"):]
-	} else if j := strings.Index(file, "/src/"); j >= 0 {
-		file = file[j+len("/src/"):]
+	} else if j := strings.Index(file, "/go/src/"); j >= 0 {
+		file = file[j+len("/go/src/"):]
+	} else if parts := strings.Split(file, "/"); len(parts) > 2 {
+		// a path under no known root (scratch directories carry process ids): keep the file name
+		file = parts[len(parts)-1]
 	}
 	return file + ":" + strings.TrimPrefix(f.Fn, octoPrefix)
 }
